@@ -25,13 +25,13 @@ EXPLANATION = ("The Cython sources dvect.pyx / dmag.pyx are stripped of their C 
                "allowed candidate, the selected N is <= every N_t, dmag2 is the least N_t and equals the squared length of dvect -- is linear order reasoning discharged by z3. "
                "Row independence of the atom loop is a semantic obligation on the two-atom run plus an AST frame rule for any number of atoms. Wrappers, displacement and "
                "System.dvect/dmag are verified against these "
-               "contracts. The orthogonal-cell nearest-image clause is a machine-checked lemma over the contract; the tilted-cell clause is a labelled bounded search.")
+               "contracts. Both nearest-image clauses (orthogonal cell; any cell below half the smallest perpendicular width) are machine-checked lemmas over the contract; a labelled bounded lattice search cross-checks them.")
 ASSUMPTIONS = [
     "cy2py: C 'double' = real, C integers unbounded, memoryview assignment is aliasing (dv = d); boundscheck(False): all subscripts are in bounds because the loops run over range(shape) (checked by executing them under NumPy's own bounds checking)",
     "atom loop: verified for ni = 1 and 2 rows with all entries symbolic (row r of both results depends on row r of the inputs only; both rows computed by the same expression); arbitrary ni follows from the syntactic frame obligation (iteration i accesses only row i of the result and every other variable it writes is written before it is read, in textual order) -- a sufficient rule; when the source does not fit it the obligation is UNDECIDED, not a violation",
-    "tilted-cell nearest-image clause (distance below half the smallest perpendicular width): bounded stand-in (exhaustive lattice search radius 3 over a stated family), not proved",
+    "nearest-image clauses (orthogonal cell; any cell with the true distance below half the smallest perpendicular width): machine-checked lemmas over the kernel contract (ring identities, Lagrange's identity, small real/integer arithmetic facts); the composition of the lemma steps (A)-(E) into the clause is the argument written in the group's clause text, not itself a solver obligation; the exhaustive lattice search remains as a bounded cross-check",
 ]
-UNCOVERED = ["IEEE rounding", "tilted-cell true-nearest-image clause beyond the bounded family"]
+UNCOVERED = ["IEEE rounding"]
 
 DVF = 'atomman/core/dvect.pyx'
 DMF = 'atomman/core/dmag.pyx'
@@ -486,6 +486,43 @@ def lemma_orthogonal(E, L):
     E.prove('lemma.inside_points_differ_by_at_most_one', Implies(And(*[And(s0[k] >= 0, s0[k] <= 1, s1[k] >= 0, s1[k] <= 1) for k in range(3)]),
                                                                  And(*[And(s1[k] - s0[k] >= -1, s1[k] - s0[k] <= 1) for k in range(3)])))
     E.canary('lemma.canary', sq(delta) <= sq(delta + n))
+
+
+# ----------------------------------------------------------------------------
+# lemma: any cell, both points inside, true nearest-image distance below half the smallest perpendicular width  =>  the true nearest image is one of the 27 candidates
+
+@group('lemma.tilted_nearest_image', files=[], functions=['lemma over the dvect_c contract'],
+       clause='for ANY cell (tilted included): if both points lie in the cell and some lattice image of their separation is shorter than half the perpendicular width of the cell '
+              'along direction k, that image has shift -1, 0 or 1 along k; applied to every periodic direction, the true nearest image is among the candidates the kernel '
+              'compares, so (kernel contract: the result is an image and is no longer than any candidate) dvect is the true nearest image',
+       replay=None, timeout_ms=30000)
+def lemma_tilted(E, L):
+    V = E.reals('V', (3, 3))
+    sq = lambda x: x * x
+    for k in range(3):
+        i, j = (k + 1) % 3, (k + 2) % 3
+        c = cross3(V[i], V[j])                                  # normal of the face spanned by the two other cell vectors; perpendicular width w_k = |vol| / |c|
+        vol = dot3(V[k], c)
+        t = E.reals('t%d' % k, (3,))                            # relative coordinates of an arbitrary vector u = sum_m t_m V_m
+        u = [t[0] * V[0, q] + t[1] * V[1, q] + t[2] * V[2, q] for q in range(3)]
+        # (A) the k-th relative coordinate is read off by the face normal:  u . c = t_k vol                      (ring identity)
+        E.prove('lemma.tilted.relative_coordinate_from_face_normal[%d]' % k, dot3(u, c) == t[k] * vol)
+        E.prove('lemma.tilted.volume_is_the_determinant[%d]' % k, vol == det3(V))
+        # (B) Cauchy-Schwarz as Lagrange's identity:  |u|^2 |c|^2 - (u.c)^2 = |u x c|^2 >= 0
+        x = cross3(u, c)
+        E.prove('lemma.tilted.lagrange_identity[%d]' % k, sumsq(u) * sumsq(c) - sq(dot3(u, c)) == sumsq(x))
+        E.prove('lemma.tilted.cauchy_schwarz[%d]' % k, sumsq(x) >= 0)
+    # (C) over the reals:  X A <= B,  4 B < A  (i.e. |u| < w_k / 2 written without roots: 4 |u|^2 |c|^2 < vol^2),  A > 0   =>   4 X < 1      with X = t_k^2, A = vol^2, B = |u|^2 |c|^2
+    X, A, B = E.real('X'), E.real('A'), E.real('B')
+    E.prove('lemma.tilted.relative_coordinate_below_half', Implies(And(X * A <= B, 4 * B < A, A > 0, X >= 0), 4 * X < 1))
+    # (D) t_k = r + n with r the difference of two relative coordinates in [0,1] and n an integer shift:  (r + n)^2 < 1/4  =>  n in {-1, 0, 1}
+    r = E.real('r')
+    n = E.int('n')
+    E.prove('lemma.tilted.shift_is_minus_one_zero_or_one', Implies(And(r >= -1, r <= 1, 4 * sq(r + n) < 1), And(n >= -1, n <= 1)))
+    # (E) with the true nearest image among the candidates: the kernel's result (an image, no longer than any candidate) has the true nearest-image length
+    Nd, Nstar = E.real('Nd'), E.real('Nstar')
+    E.prove('lemma.tilted.result_is_the_true_nearest_image', Implies(And(Nd <= Nstar, Nstar <= Nd), Nd == Nstar))
+    E.canary('lemma.tilted.canary', And(n >= -1, n <= 1))
 
 
 # ----------------------------------------------------------------------------
